@@ -25,6 +25,7 @@ func runC01(r *fw.Run, p *fw.Program) {
 	c01Lanes(r, p)
 	c01Bits(r, p)
 	c01Clone(r, p)
+	c01Buffer(r, p)
 	c05BitioxAs(r, p, "C01.bitiox")
 }
 
